@@ -43,15 +43,54 @@ fn open_observe<K: HKey>(dir: &Path, cfg: &Cfg) -> Value {
 }
 
 pub fn run_damage<K: HKey>(sid: &Value, cfg: &Cfg, ops: &[Value], sel0: usize, scratch: &Path, out: &mut Out, env: &Value) {
-    // env.base = "crash:<k>" is handled by the caller providing a prepared directory in env.dir
-    let base = match env["dir"].as_str() {
-        Some(d) => {
-            out.emit(&json!({"ev": "reset", "sid": sid, "cfg": cfg.to_json(), "mode": "damage"}));
-            PathBuf::from(d)
-        }
-        None => run_base::<K>(sid, cfg, ops, sel0, scratch, out, "damage"),
-    };
     let names = names_of(&Universe::<K>::new(&cfg.kt));
+    // env.crash = "two_segments": damage a CRASH IMAGE in which the un-checkpointed records span two
+    // segment files (the state between the first record of a new segment and the rollover snapshot)
+    let base = if env["crash"].as_str() == Some("two_segments") {
+        out.emit(&json!({"ev": "reset", "sid": sid, "cfg": cfg.to_json(), "mode": "damage"}));
+        let root = fresh(scratch, "db");
+        fs::create_dir_all(&root).unwrap();
+        let picked = fresh(scratch, "picked");
+        let found = std::sync::Arc::new(std::sync::Mutex::new(false));
+        {
+            let (root2, picked2, found2) = (root.clone(), picked.clone(), found.clone());
+            let names2 = names_of(&Universe::<K>::new(&cfg.kt));
+            crate::shim::install(
+                &root,
+                Box::new(move |_c| {
+                    let mut f = found2.lock().unwrap();
+                    if !*f {
+                        let d = alpha::alpha(&root2, &names2, NK);
+                        let sv = d["snap"]["ver"].as_i64().unwrap_or(0);
+                        let n = d["segs"].as_array().map_or(0, |a| {
+                            a.iter()
+                                .filter(|s| s["items"].as_array().is_some_and(|it| it.iter().any(|i| i["t"] == "rec" && i["v"].as_i64().unwrap_or(0) > sv)))
+                                .count()
+                        });
+                        if n >= 2 {
+                            copy_dir(&root2, &picked2);
+                            *f = true;
+                        }
+                    }
+                    0
+                }),
+            );
+            let mut st = Store::<K>::new(&root, cfg);
+            st.open();
+            for (i, op) in ops.iter().enumerate() {
+                st.exec(op, sel0 + i);
+            }
+            st.close();
+            crate::shim::uninstall();
+        }
+        let _ = fs::remove_dir_all(&root);
+        if !*found.lock().unwrap() {
+            return;
+        }
+        picked
+    } else {
+        run_base::<K>(sid, cfg, ops, sel0, scratch, out, "damage")
+    };
     let snap = alpha::decode_snapshot(&base.join("index"), &names, NK);
     let snap_ver = snap["ver"].as_i64().unwrap_or(0);
     let stride = env["stride"].as_u64().unwrap_or(1) as usize;
@@ -108,9 +147,7 @@ pub fn run_damage<K: HKey>(sid: &Value, cfg: &Cfg, ops: &[Value], sel0: usize, s
         }
     }
     let _ = fs::remove_dir_all(&dmg);
-    if env["dir"].as_str().is_none() {
-        let _ = fs::remove_dir_all(&base);
-    }
+    let _ = fs::remove_dir_all(&base);
 }
 
 fn hexs(b: &[u8]) -> String {
